@@ -189,6 +189,22 @@ check("C11",
       "TLA+ spec (GenMap.tla) model-checked by TLC + TLC validation of recorded map queries + TLC-computed exact lattice values for the map functions",
       "DESIGN.md C11")
 
+check("C13",
+      "TLC checks, for every genotype set of <=3 individuals x <=2 markers at ploidy 1 and 2, that the closed forms used by "
+      "the code equal the definition of molecular coancestry (twice the mean identity-by-state probability of alleles drawn "
+      "from the two individuals), symmetry, the self-coancestry range and a finite positive-semidefiniteness witness. "
+      "Matrices from DenseMolecular/VanRaden/Yang/GeneralizedWeighted coancestry classes and the two factories (phased and "
+      "unphased inputs, ploidy 1 and 2, estimated / array / scalar reference frequencies, marker weights, coancestry and "
+      "kinship formats) on small and random larger (4-30 taxa) genotype sets are logged entry by entry as rationals and "
+      "validated by TLC against the published formulas in exact arithmetic; kinship = coancestry/2, exact symmetry and the "
+      "source's taxon labels/groups are checked; because every entry is validated against a per-entry formula, commutation "
+      "with permutation/sub-selection follows.",
+      "Entries are converted with Fraction.limit_denominator(20000) and a 1e-9 residual check; inverse, min_inbreeding, "
+      "max/min/mean, max_inbreeding and positive semidefiniteness beyond 3x3 are compared with numpy linear algebra in the "
+      "harness (TLC has no reals) - stated partial scope.",
+      "TLA+ spec (Coancestry.tla) model-checked by TLC + TLC validation of recorded matrix entries of the real classes",
+      "DESIGN.md C13")
+
 def build():
     checks = []
     for pid in sorted(CHECKS):
